@@ -29,6 +29,7 @@ def run(ctx, sess):
     ctx.rule('C08.4', 'never outside the ring, never onto the oldest message: every hand-out is bounded by size + 8 <= ring size or size + 4 < read index (shared with C10.15), and the indices are reset to 0 only on the path on which head == tail (ring empty)')
     ctx.rule('C08.5', 'count: incremented on every path to a non-NULL return of the allocator, decremented only when pop delivers a message, zeroed by clear')
     ctx.rule('C08.6', 'peek and pop do not store into the ring memory; the allocator stores only size prefixes and the wrap marker')
+    ctx.rule('C08.8', 'what the allocator admits, the consumer delivers (finite-domain trace of both functions over every ring size in a small set, every index position and every pair of sizes): the region handed out lies inside the ring and does not touch a queued message, and tracing peek on the state and the prefixes the allocator left returns the oldest message with its size, without discarding the queue')
     ctx.rule('C08.7', 'no stale index: a local copy of the read or write index that is used to compute the value stored back into that index is taken after every call that can itself store that index (peek moves the read index past a wrap marker)')
     fns = {f.name: f for f in P.fns_in(F)}
     for need in ('jls_mrb_alloc', 'jls_mrb_peek', 'jls_mrb_pop', 'jls_mrb_clear'):
@@ -58,6 +59,7 @@ def run(ctx, sess):
     if len(szvars) != 1:
         raise AnalysisBroken('jls_mrb_peek: decoded prefix held in %s' % sorted(szvars, key=str))
     SZ = szvars.pop()
+    agreement_trace_rule(ctx, P, alloc, peek, ENC, DEC)
 
     # ---- C08.1
     enc_bytes = set()
@@ -295,3 +297,139 @@ def run(ctx, sess):
                            '%s is copied before %s(), which can itself store self->%s (past a wrap marker), and is then used to compute the value stored back: the index goes back to the stale position' % (name, w[0].callee, field),
                            w[1].render() if w else None)
     ctx.floor('index snapshots that are stored back', n7, 2)
+
+
+def agreement_trace_rule(ctx, P, alloc, peek, ENC, DEC, rule='C08.8'):
+    """Abstract evaluation of jls_mrb_alloc and jls_mrb_peek over a finite domain: the struct fields are environment
+    entries updated by the stores the trace meets, the ring memory is the map {offset: prefix} of the encoder calls."""
+    from ..fd import FD, Top, trace_calls
+    fd = FD(P)
+    BUF = 0x100000
+    self_a = alloc.params[0]['name']
+    self_p = peek.params[0]['name']
+    size_a = alloc.params[1]['name']
+    size_p = peek.params[1]['name']
+
+    def run(fn, selfname, state, extra, mem, dec_default=0x5a5a5a5a):
+        env = {'%s.buf' % selfname: BUF, '%s.head' % selfname: state['head'], '%s.tail' % selfname: state['tail'],
+               '%s.buf_size' % selfname: state['B'], '%s.count' % selfname: state['count']}
+        env.update(extra)
+        out_size = []
+        assume = {DEC: dec_default}
+
+        def on_store(ev, env_, sym_):
+            lhs, rhs, o = ev.store_parts()
+            l0 = strip_casts(lhs)
+            if l0.get('op') == 'member':
+                key = str(fn.path(l0))
+                try:
+                    if rhs is None:
+                        env_[key] = env_[key] + (1 if '++' in o else -1)
+                    elif o == '=':
+                        env_[key] = fd.ev(fn, rhs, env_)
+                    else:
+                        env_[key] = fd.ev(fn, {'op': 'bin', 'o': o[:-1], 't': l0.get('t'), 'k': [l0, rhs]}, env_)
+                except (Top, ZeroDivisionError, KeyError):
+                    env_.pop(key, None)
+            elif l0.get('op') == 'un' and l0.get('o') == '*' and rhs is not None:
+                try:
+                    out_size.append(fd.ev(fn, rhs, env_))
+                except (Top, ZeroDivisionError):
+                    out_size.append(None)
+
+        def on_event(ev, env_, sym_):
+            if ev.k == 'call' and ev.callee == ENC:
+                try:
+                    a0 = fd.ev(fn, strip_casts(ev.args[0]), env_)
+                    a1 = fd.ev(fn, strip_casts(ev.args[1]), env_)
+                    mem[a0 - BUF] = a1 & 0xffffffff
+                except (Top, ZeroDivisionError):
+                    mem['?'] = True
+            if ev.k == 'call' and ev.callee == DEC:
+                try:
+                    a0 = fd.ev(fn, strip_casts(ev.args[0]), env_)
+                    assume[DEC] = mem.get(a0 - BUF, dec_default)
+                except (Top, ZeroDivisionError):
+                    assume[DEC] = dec_default
+        box = []
+        final = {}
+        calls = trace_calls(P, fn, env, assume_calls=assume, _retbox=box, sym_out=final, on_store=on_store, on_event=on_event,
+                            no_inline=(DEC, 'jls_mrb_clear'))
+        ret = box[0] if box else None
+        st = {'B': state['B'], 'head': final.get('%s.head' % selfname), 'tail': final.get('%s.tail' % selfname), 'count': final.get('%s.count' % selfname)}
+        return ret, st, calls, out_size
+
+    bad = {}
+    n = 0
+    undecided = 0
+    def note(kind, msg):
+        bad.setdefault(kind, [])
+        if len(bad[kind]) < 3:
+            bad[kind].append(msg)
+    for B in (16, 21, 40):
+        sizes = list(range(0, B + 1)) if B <= 21 else [0, 1, 7, 16, 27, 28, 31, 32, 33, 36, 40]
+        tails = list(range(0, B)) if B <= 21 else [0, 1, 4, 20, 35, 36, 39]
+        for t in tails:
+            for s1 in sizes:
+                try:
+                    mem = {}
+                    st0 = {'B': B, 'head': t, 'tail': t, 'count': 0}
+                    r1, st1, _, _ = run(alloc, self_a, st0, {size_a: s1}, mem)
+                    n += 1
+                    if not isinstance(r1, int) or '?' in mem or st1['head'] is None or st1['tail'] is None:
+                        undecided += 1
+                        continue
+                    if r1 == 0:
+                        if s1 + 8 <= B:
+                            note('refused', 'ring of %d bytes, empty at index %d: a message of %d bytes is refused although size + 8 <= capacity' % (B, t, s1))
+                        continue
+                    o1 = r1 - BUF
+                    if o1 - 4 < 0 or o1 + s1 > B:
+                        note('outside', 'ring of %d bytes, empty at index %d: the region for %d bytes is [%d, %d)' % (B, t, s1, o1 - 4, o1 + s1))
+                        continue
+                    # the consumer on this state
+                    rp, stp, calls, out = run(peek, self_p, st1, {size_p: 0x7000}, dict(mem))
+                    n += 1
+                    sz_out = out[-1] if out else None
+                    cleared = any(c_[0] == 'jls_mrb_clear' for c_ in calls)
+                    if cleared or rp != r1 or sz_out != s1:
+                        note('undelivered', 'ring of %d bytes, empty at index %d, one message of %d bytes queued at offset %d: peek %s' % (
+                            B, t, s1, o1, 'discards the queue' if cleared else ('returns offset %s, size %s' % ((rp - BUF) if isinstance(rp, int) and rp else rp, sz_out))))
+                        continue
+                    # a second message behind it
+                    for s2 in sizes:
+                        mem2 = dict(mem)
+                        r2, st2, _, _ = run(alloc, self_a, st1, {size_a: s2}, mem2)
+                        n += 1
+                        if not isinstance(r2, int) or st2['head'] is None:
+                            undecided += 1
+                            continue
+                        if r2 == 0:
+                            continue
+                        o2 = r2 - BUF
+                        if o2 - 4 < 0 or o2 + s2 > B:
+                            note('outside', 'ring of %d bytes, message of %d bytes queued at %d: the region for %d more bytes is [%d, %d)' % (B, s1, o1, s2, o2 - 4, o2 + s2))
+                            continue
+                        if not (o2 + s2 <= o1 - 4 or o2 - 4 >= o1 + s1):
+                            note('overlap', 'ring of %d bytes, message of %d bytes queued at [%d, %d): the region for %d more bytes [%d, %d) overlaps it' % (B, s1, o1 - 4, o1 + s1, s2, o2 - 4, o2 + s2))
+                            continue
+                        if st2['head'] == st2['tail']:
+                            note('full-is-empty', 'ring of %d bytes, messages of %d and %d bytes queued: head == tail == %d, the full ring reads as empty' % (B, s1, s2, st2['head']))
+                            continue
+                        rq, stq, calls2, out2 = run(peek, self_p, st2, {size_p: 0x7000}, dict(mem2))
+                        n += 1
+                        cleared2 = any(c_[0] == 'jls_mrb_clear' for c_ in calls2)
+                        if cleared2 or rq != r1 or (out2[-1] if out2 else None) != s1:
+                            note('order', 'ring of %d bytes, messages of %d then %d bytes queued: peek %s instead of the older one' % (
+                                B, s1, s2, 'discards the queue' if cleared2 else 'returns offset %s size %s' % ((rq - BUF) if isinstance(rq, int) and rq else rq, out2[-1] if out2 else None)))
+                except Top:
+                    undecided += 1
+    if undecided * 10 > n or n < 1000:
+        raise AnalysisBroken('msg_ring_buffer trace: %d of %d evaluations not decidable' % (undecided, n))
+    kinds = (('outside', 'the region handed out lies inside the ring'), ('overlap', 'the region handed out does not touch a queued message'),
+             ('full-is-empty', 'a ring with queued messages never has head == tail'), ('undelivered', 'a single queued message is delivered by peek'),
+             ('order', 'with two messages queued peek delivers the older one'), ('refused', 'an empty ring admits every size up to capacity - 8'))
+    for k, text in kinds:
+        ctx.ob(rule, k not in bad, alloc.name if k in ('outside', 'overlap', 'full-is-empty', 'refused') else peek.name, text,
+               (alloc if k in ('outside', 'overlap', 'full-is-empty', 'refused') else peek).where(),
+               '%d evaluations of the two functions over ring sizes 16, 21, 40 (%d not decidable)' % (n, undecided) if k not in bad else '; '.join(bad[k]))
